@@ -192,6 +192,74 @@ theorem leak_count_is_own_blocks (w : World) (hc : Clean w) (t : Test) :
     leaksAtPost (atTeardownEnd w t) = (blocksOf w.liveIds t).length :=
   leaksAtPost_eq (sim_atTeardownEnd hc t)
 
+/-! ## realloc: both outcomes
+
+Scripts contain `realloc id newId size` (the platform realloc succeeds) and `reallocFail id size`
+(it returns NULL), so every theorem of this file already quantifies over histories with both
+outcomes, on blocks of the running test and on blocks of earlier tests.  On the history a
+successful realloc releases the old block and is a new allocation of the test that performs it;
+a failed realloc changes nothing (`Hist.hexec`).  The theorems below spell out what that means. -/
+
+/-- A failed realloc leaves the detector's table, the allocation counter and everything else as
+    it was: the old block is re-registered with its old period, number and size.  (The sources of
+    these three fields are read from `reallocMemory`'s failure branch on every run; with
+    `current_period_` in place of `oldNode.period_` this theorem is false.) -/
+theorem failed_realloc_changes_nothing (w : World) (id size : Nat) :
+    execCmd w (.reallocFail id size) = w := execCmd_reallocFail w id size
+
+/-- Deleting every failed realloc from a test changes neither its verdict nor its blocks. -/
+theorem failed_reallocs_do_not_matter (w : World) (hc : Clean w) (t : Test) :
+    blocksOf w.liveIds (Test.dropReallocFails t) = blocksOf w.liveIds t ∧
+      (runTest w (Test.dropReallocFails t)).leakFail.isSome = (runTest w t).leakFail.isSome := by
+  have e := atEnd_dropReallocFails w.liveIds t
+  refine ⟨by simp only [blocksOf, e], ?_⟩
+  rw [leakFail_runTest hc t, leakFail_runTest hc (Test.dropReallocFails t)]
+  have : shouldFail w.liveIds (Test.dropReallocFails t) = shouldFail w.liveIds t := by
+    simp only [shouldFail, ownFailures, ignores, blocksOf, Hist.expected, e]
+  rw [this]
+  split <;> rfl
+
+/-- The seeded scenario: a test that only tries to grow a block (of an earlier test, or any
+    other) and whose platform realloc fails allocates nothing and gets no leak failure. -/
+theorem failed_realloc_of_earlier_block_is_not_charged (w : World) (hc : Clean w) (id size : Nat) :
+    (runTest w { body := [.reallocFail id size] }).leakFail = none := by
+  have h := failed_reallocs_do_not_matter w hc { body := [.reallocFail id size] }
+  have h0 : (runTest w (Test.dropReallocFails { body := [.reallocFail id size] })).leakFail = none := by
+    rw [leakFail_runTest hc]
+    have : shouldFail w.liveIds (Test.dropReallocFails { body := [.reallocFail id size] }) = false := rfl
+    simp [this]
+  have h1 := h.2
+  rw [h0] at h1
+  cases hl : (runTest w { body := [.reallocFail id size] }).leakFail with
+  | none => rfl
+  | some r => rw [hl] at h1; cases h1
+
+/-- A successful realloc of an earlier test's block: the resulting block is a block of the test
+    that did the realloc (and the only one, if it does nothing else); the old block is released. -/
+theorem realloc_result_belongs_to_reallocating_test (live : List Nat) (id newId size : Nat)
+    (hid : id ∈ live) (hnew : newId = id ∨ newId ∉ live) :
+    blocksOf live { body := [.realloc id newId size] } = [newId] ∧
+      (newId ≠ id → id ∉ liveAfterTest live { body := [.realloc id newId size] }) := by
+  have hcond : ¬ (newId ≠ id ∧ newId ∈ live) := by
+    rintro ⟨h1, h2⟩; rcases hnew with h | h
+    · exact h1 h
+    · exact h h2
+  have hnot : newId ∉ live.filter (· != id) := by
+    intro h; simp only [List.mem_filter, bne_iff_ne, ne_eq] at h
+    exact hcond ⟨h.2, h.1⟩
+  constructor
+  · simp only [blocksOf, atEnd, hPhase, hrun, liveAtStart, List.foldl_nil, List.foldl_cons, hEnter, hstep, start,
+      Bool.false_eq_true, if_false, hexec, hid, not_true_eq_false]
+    rw [if_neg hcond]
+    simp only [hAlloc, hFree, hnot, if_false, List.filter_nil]
+  · intro hne h
+    simp only [liveAfterTest, atEnd, hPhase, hrun, liveAtStart, List.foldl_nil, List.foldl_cons, hEnter, hstep, start,
+      Bool.false_eq_true, if_false, hexec, hid, not_true_eq_false] at h
+    rw [if_neg hcond] at h
+    simp only [hAlloc, hFree, hnot, if_false, List.mem_cons, List.mem_filter,
+      bne_iff_ne, ne_eq, not_true_eq_false, and_false, or_false] at h
+    exact hne h.symm
+
 /-! ## already_failed_gets_no_leak_failure -/
 
 /-- A test with an own failing check gets no leak failure, whatever it leaked. -/
@@ -245,6 +313,21 @@ example : (runTests (World.init true) exampleTests).2.map (fun v => (v.failures,
 
 example : (runTests (World.init true) exampleTests).1.liveIds = [9, 8, 7, 4, 3, 2] := by decide
 
+/-- test A keeps block 1 and declares it; test B tries to grow it and the platform realloc
+    fails; test C grows it successfully into block 2 (now C's block); test D frees block 2 -/
+def reallocTests : List Test :=
+  [ { body := [.expectLeaks 1, .alloc 1 10] },
+    { body := [.reallocFail 1 1000] },
+    { body := [.realloc 1 2 20] },
+    { body := [.free 2] } ]
+
+example : (runTests (World.init true) reallocTests).2.map (fun v => (v.failures, v.leakFail.map (fun r => (r.entries.map (·.id), r.total)))) =
+    [(0, none), (0, none), (1, some ([2], 1)), (0, none)] := by decide
+
+-- the block test C is charged with carries C's own (new) allocation number, not test A's
+example : (runTests (World.init true) reallocTests).2.map (fun v => v.leakFail.map (fun r => r.entries.map (·.num))) =
+    [none, none, some [2], none] := by decide
+
 -- the same verdicts, read off the history alone
 example : verdicts [] exampleTests = [true, true, false, false, false, false] := by decide
 
@@ -252,7 +335,7 @@ example : Clean (World.init true) ∧ (World.init true).overloads = true := ⟨i
 
 -- the hypotheses of `earlier_free_does_not_offset` are met by test 2 and block 1
 example : neverAllocs 1 [Cmd.free 1, Cmd.alloc 2 4] := by
-  intro sz h; simp at h
+  intro c h; simp at h; rcases h with rfl | rfl <;> rfl
 
 -- a test expecting one leak that leaks nothing gets a failure whose report lists nothing
 example : ((runTests (World.init true) [{ body := [.expectLeaks 1] }]).2.map
